@@ -39,6 +39,14 @@ struct Outcome {
     std::uint64_t fp = 0;  // fingerprint of the decoded operands (distinctness)
     std::string fclass;  // failure class (cause recognised independently of CNL, else raw symptom)
     std::string msg;  // expected / observed
+    std::string region;  // cause region of a listed finding the case lies in, as the oracle sees it from the operands ("" = none);
+                         // tallied by the engines so that every run reports how many cases inside each region pass and fail
+    void take_failure(Outcome const& t)  // adopt the verdict of a nested guard, keeping fingerprint and region
+    {
+        kind = t.kind;
+        fclass = t.fclass;
+        msg = t.msg;
+    }
     void pass(bool nt, char const* lab)
     {
         kind = PASS;
@@ -152,7 +160,7 @@ int guard_trapping(Outcome& o, F&& f)
     if (tmp.fclass.rfind("abort:", 0) == 0 && tmp.fclass.find("overflow") != std::string::npos
         && tmp.fclass.find("assert") == std::string::npos)
         return 2;
-    o = tmp;
+    o.take_failure(tmp);
     return 99;
 }
 
